@@ -1375,8 +1375,8 @@ Proof. vm_compute. repeat split. Qed.
 Example dim_cap :
   last_msg [HLine (bs "DIM A(100,100)")] = Some (bs "OUT OF MEMORY ERROR (ARRAY TOO LARGE)")
   /\ let s := run_state default_fuel (fresh []) [HLine (bs "DIM B$(99,99)"); HLine (bs "B$(99,99) = ""Z""")] in
-     map (fun p => (fst p, ar_dims (snd p), length (ar_cells (snd p)))) (arrays s)
-     = [(bs "B$", [100%N; 100%N], 10000)]
+     map (fun p => (fst p, ar_dims (snd p), N.of_nat (length (ar_cells (snd p))))) (arrays s)
+     = [(bs "B$", [100%N; 100%N], 10000%N)]
      /\ state s = Idle.
 Proof. vm_compute. repeat split. Qed.
 
